@@ -18,12 +18,14 @@ func init() {
 	register(&propDef{
 		ID: "C12", Level: "exploration",
 		Families: []family{
-			{Name: "streams", Fn: scnC12("eof"), Weight: 3},
-			{Name: "callback-error-at-i", Fn: scnC12("cberr"), Weight: 2, Group: 12},
-			{Name: "read-error", Fn: scnC12("eio"), Weight: 1},
+			{Name: "streams", Fn: scnC12("eof"), Weight: 9},
+			{Name: "callback-error-at-i", Fn: scnC12("cberr"), Weight: 6, Group: 12},
+			{Name: "read-error", Fn: scnC12("eio"), Weight: 3},
+			{Name: "long-stream", Fn: scnC12("huge"), Weight: 1},
 		},
 		Rule: "byte streams of 0-40 records (record length 0..3x the internal buffer + 7, arbitrary bytes except the delimiter, optional unterminated tail) x " +
 			"partition into writes (byte at a time, many records per write, everything at once, random) x pauses in fake time x short reads x buffer-size knob {16,64,4096} x delimiter {\\n, 0x1e}; " +
+			"one run in nineteen is a long stream (150-250 records of 4-10 KB, more than a megabyte through one Ingest call, writes up to 64 KB); every record is compared inside the callback and again, as the string that was handed over, after Ingest returned; " +
 			"faults: end of stream, callback error at every record index i of the stream (enumerated within a group of runs), read error (EIO) at a random instant; " +
 			"non-trivial = at least 2 records and (a record longer than the internal buffer or a write boundary inside a record or a fault fired); distinct = distinct (stream+partition hash, schedule hash)",
 		Quick: 12000, Thorough: 400000,
@@ -32,6 +34,7 @@ func init() {
 
 type c12Callback struct {
 	got         []string
+	kept        []string // the strings as handed over, looked at again only after Ingest returned
 	failAt      int // index at which the callback returns failErr (-1: never)
 	failErr     error
 	calls       int
@@ -47,6 +50,7 @@ func (c *c12Callback) cb(_ context.Context, line string) error {
 	i := c.calls
 	c.calls++
 	c.got = append(c.got, string(append([]byte(nil), line...)))
+	c.kept = append(c.kept, line)
 	if i == c.failAt {
 		return c.failErr
 	}
@@ -75,20 +79,29 @@ func scnC12(mode string) scenarioFn {
 		if mode == "cberr" && nrec == 0 {
 			nrec = 1 + t.Choose(10, "nrec2")
 		}
+		huge := mode == "huge"
+		if huge {
+			// one Ingest call sees well over a megabyte: 150-250 records of 4-10 KB
+			mode = "eof"
+			bufsz = 4096
+			nrec = 150 + t.Choose(100, "nrec.huge")
+		}
 		var recs [][]byte
 		long := false
 		var stream []byte
 		for i := 0; i < nrec; i++ {
 			var n int
-			switch t.Choose(6, "reclen.kind") {
-			case 0:
+			switch kind := t.Choose(6, "reclen.kind"); {
+			case huge:
+				n = 4000 + t.Choose(6000, "reclen.huge")
+			case kind == 0:
 				n = 0
-			case 1:
+			case kind == 1:
 				n = bufsz - 1 + t.Choose(3, "reclen.edge") // around the buffer boundary (incl. delimiter position)
 				if len(stream) > 16000 {
 					n = t.Choose(64, "reclen.cap")
 				}
-			case 2:
+			case kind == 2:
 				n = t.Choose(3*bufsz+8, "reclen.big")
 				if bufsz == 4096 {
 					n = t.Choose(2*bufsz, "reclen.big2")
@@ -134,6 +147,9 @@ func scnC12(mode string) scenarioFn {
 		if pmode == 3 && len(stream) > 2500 {
 			pmode = 2
 		}
+		if huge {
+			pmode = 2
+		}
 		rest := stream
 		for len(rest) > 0 {
 			var k int
@@ -144,6 +160,9 @@ func scnC12(mode string) scenarioFn {
 				k = len(rest)
 			case 2:
 				k = 1 + t.Choose(3*bufsz, "wsize")
+				if huge {
+					k = 1 + t.Choose(65536, "wsize.huge")
+				}
 			default:
 				k = 1 + t.Choose(9, "wsize.small")
 			}
@@ -258,6 +277,13 @@ func scnC12(mode string) scenarioFn {
 			g := cbk.got[i]
 			if g != string(want[i]) && g != string(want[i])+string([]byte{delim}) {
 				rc.Fail("C12", "wrong-bytes", "record %d: callback got %d bytes %q, expected the record's %d bytes %q (with or without the delimiter); bufio %d", i, len(g), truncate(g, 80), len(want[i]), truncate(string(want[i]), 80), bufsz)
+				return
+			}
+		}
+		// the record handed over is the callback's to keep: it still reads the same afterwards
+		for i := 0; i < limit && i < len(cbk.kept); i++ {
+			if cbk.kept[i] != cbk.got[i] {
+				rc.Fail("C12", "record-changed-after-handover", "record %d read %q inside the callback and reads %q after Ingest returned (bufio %d)", i, truncate(cbk.got[i], 80), truncate(cbk.kept[i], 80), bufsz)
 				return
 			}
 		}
